@@ -5,7 +5,8 @@ RD=${SEED_ROUND:-}; SRC=/tmp/seeded-out$RD/$ID; WT=/tmp/wt$RD-$ID
 RUN=$SRC/RUN$N.md
 DEMO=$(ls $SRC/demo$N.* 2>/dev/null | head -1)
 DEST=$(grep -oE "cp +$SRC/demo$N[^ ]* +[^ ]+" $RUN | head -1 | awk '{print $NF}')
-CMD=$(grep -oE "cargo test --offline[^\`\"]*(--test|--example|--bin) [A-Za-z0-9_]+" $RUN | head -1)
+DEST=$(echo "$DEST" | sed -E 's#^(\$[A-Za-z_{}]+|<[^>]+>|/tmp/wt[0-9]*-C[0-9]+)/##')
+CMD=$(grep -oE "cargo (test|run) --offline[^\`\"]*(--test|--example|--bin) [A-Za-z0-9_]+" $RUN | head -1)
 echo "##### $ID s$N demo=$DEMO dest=$DEST cmd=[$CMD]"
 if [ -z "$DEST" ] || [ -z "$CMD" ]; then echo "CANNOT PARSE RUN FILE"; exit 2; fi
 /verif/tools/seeded_confirm.sh $WT $SRC/patch$N.diff $DEMO $DEST $CMD -q 2>&1 | grep -aE "CONFIRMED|FAILED:|suite failures"
